@@ -95,9 +95,10 @@ func getConfigsForHost(filterNamespace string, hostname host.Name, configs []*co
 	return svcConfigs
 }
 
-// hashRuntimeTLSMatchPredicates hashes runtime predicates of a TLS match
-func hashRuntimeTLSMatchPredicates(match *v1alpha3.TLSMatchAttributes) string {
-	return strings.Join(match.SniHosts, ",") + "|" + strings.Join(match.DestinationSubnets, ",")
+// hashRuntimeTLSMatchPredicates hashes runtime predicates of a TLS match: the SNI hosts and the
+// destination CIDRs in effect for it (declared by the match or inherited from the service).
+func hashRuntimeTLSMatchPredicates(match *v1alpha3.TLSMatchAttributes, destinationCIDRs []string) string {
+	return strings.Join(match.SniHosts, ",") + "|" + strings.Join(destinationCIDRs, ",")
 }
 
 func buildSidecarOutboundTLSFilterChainOpts(node *model.Proxy, push *model.PushContext, destinationCIDRs []string,
@@ -149,15 +150,19 @@ func buildSidecarOutboundTLSFilterChainOpts(node *model.Proxy, push *model.PushC
 					// Only set CIDR match if the listener is bound to an IP.
 					// If its bound to a unix domain socket, then ignore the CIDR matches
 					// Unix domain socket bound ports have Port value set to 0
+					// The override applies to this match only, and two matches are the same filter chain match
+					// when their SNI hosts and the CIDRs in effect coincide - whether those were declared by the
+					// match or inherited from the service.
+					matchCIDRs := destinationCIDRs
 					if len(match.DestinationSubnets) > 0 && listenPort.Port > 0 {
-						destinationCIDRs = match.DestinationSubnets
+						matchCIDRs = match.DestinationSubnets
 					}
-					matchHash := hashRuntimeTLSMatchPredicates(match)
+					matchHash := hashRuntimeTLSMatchPredicates(match, matchCIDRs)
 					if !matchHasBeenHandled.Contains(matchHash) {
 						out = append(out, &filterChainOpts{
 							metadata:         util.BuildConfigInfoMetadata(cfg.Meta),
 							sniHosts:         match.SniHosts,
-							destinationCIDRs: destinationCIDRs,
+							destinationCIDRs: matchCIDRs,
 							networkFilters:   lb.buildOutboundNetworkFilters(tls.Route, listenPort, cfg.Meta, false),
 						})
 						hasTLSMatch = true
